@@ -199,7 +199,7 @@ def report_open(ctx, fx, hid):
 
 def run(ctx):
     rng = ctx.rng
-    nf, nh = ctx.scale(5, 24), ctx.scale(10, 40)
+    nf, nh = ctx.scale(8, 24), ctx.scale(12, 40)
     for k in range(nf):
         fseed = rng.randrange(1 << 30)
         hid0 = dict(kind='cat', fseed=fseed, hseed=0, nops=0)
